@@ -13,6 +13,12 @@ def answers_agree(request, impl, model):
     proto = request.split(" ", 1)[0]
     if proto in MEMBERSHIP:
         return model.startswith("ok")
+    if proto == "cost":
+        # one-sided: doing *less* work than the model says is not a violation of totality
+        try:
+            return int(impl) <= int(model)
+        except ValueError:
+            return False
     return impl == model
 
 
@@ -32,6 +38,8 @@ def nontrivial(request, impl):
         return "0a" in parts[2] or "0d" in parts[2]
     if proto == "num":
         return parts[1].startswith("2e")
+    if proto == "cost":
+        return int(parts[2]) >= 2
     if proto == "callform":
         return parts[3] in ("P1s", "P1t", "S", "T")
     if proto == "trivia":
@@ -228,4 +236,18 @@ PROPS["C06"] = {
     "rule": PIPE_RULE + SLOT_RULE + "ring 2: `expr` correspondence (C05).",
     "trusted_base": ["layout-path stability is not modelled"],
     "assumptions": [],
+}
+
+PROPS["C07"] = {
+    "lean_modules": ["StyluaModel.Props.C07"],
+    "theorem_prefix": "C07_",
+    "required_theorems": ["C07_sites_classified", "C07_cost_exp", "C07_poly_calls", "C07_models_total"],
+    "hx": [["c07"], ["pipe"], ["slots"], ["c08"]],
+    "level": "proof",
+    "level_text": "Proof, partial: (i) the inventory of panic-capable sites of the library is regenerated from the source on every run and must equal the hand-classified list (a new unwrap / panic! / assert! breaks the theorem); (ii) cost recurrences for nested inputs (exponential for nested method chains - a known finding -, quadratic for nested calls), tied to the code by hook counters; (iii) all mirrored decision procedures are total Lean functions. Stack depth, allocation and wall time are runtime behaviour a model cannot exhibit: they are exercised by the oracle (corpus, comment-slot set, truncated / spliced / junk-injected inputs x extreme configurations x degenerate ranges x verification on/off) with panics identified by site.",
+    "level_note": "Trusted: Lean kernel; translator's site extraction (regex over /repo/src, test modules and src/cli excluded); the textual justifications in Model/PanicClass.lean; hook counters (lib.rs `pub mod verif`, --cfg stylua_verif). The cost correspondence is one-sided (doing less work than modelled is not a violation).",
+    "technique": "translated panic-site inventory + Lean cost recurrences + hook counters + panic/timeout oracle on valid and malformed inputs",
+    "rule": "ring 2 (`cost`): format_function_call invocations for nested method chains / nested calls of depth 0..11 (hook counter) <= Model/Cost.lean. distinct_nontrivial = depths >= 2. ring 3: 367 corpus files x 6 seeded variants (truncate, splice, junk token, CRLF+tabs, unchanged) x 8 extreme configurations (width 1, 2, 80, usize::MAX; indent 1, 16) x 6 range shapes (empty, inverted, out of bounds, open-ended) x verify on/off: no panic (signature = panic site), Ok iff the input parses, time budget; deterministic superlinearity test (formatter entries per input byte); plus every case of the closed corpus and slot sets. " + PIPE_RULE,
+    "trusted_base": ["panics inside the full_moon parser are grouped into one known finding (its code cannot change with /repo)"],
+    "assumptions": ["nesting depth of function bodies is capped at 6 in the harness: deeper nesting overflows a 2 MB stack in unoptimised builds, an artefact of the build profile"],
 }
